@@ -133,6 +133,69 @@ PARSE_UNITTEST = {
 }
 
 
+# ---- the test-case loop of writeXMLReports (fragment): what is appended to the tree ---------------------------------
+XNode = usort('XNode')
+xtag = z3.Function('xml_tag', XNode, usort('Str'))
+
+
+def element_rule(E, st, node, args, kws, k):
+    n = z3.Const(fresh_name('xnode'), XNode)
+    st.assume(xtag(n) == args[0].z)
+    return k(st, VObj('XNode', n))
+element_rule.__name__ = "ElementTree.Element(tag): a new element with that tag"
+
+
+def append_suite(E, st, node, args, kws, k):
+    st.ghost['ncase'] = VInt(st.ghost['ncase'].z + 1)
+    return k(st, NONE)
+append_suite.__name__ = 'testSuiteNode.append(child): one more child of the testsuite element (ghost G.ncase)'
+append_suite.modifies = ['G.ncase']
+
+
+def append_case(E, st, node, args, kws, k):
+    t = xtag(args[0].z)
+    st.ghost['nerr'] = VInt(st.ghost['nerr'].z + z3.If(t == E.strlit('error').z, 1, 0))
+    st.ghost['nfail'] = VInt(st.ghost['nfail'].z + z3.If(t == E.strlit('failure').z, 1, 0))
+    return k(st, NONE)
+append_case.__name__ = 'testCaseNode.append(child): an error / failure child of this testcase (ghosts G.nerr, G.nfail)'
+append_case.modifies = ['G.nerr', 'G.nfail']
+
+
+def _raw_noeffect(E, st, node, k):
+    return k(st, NONE)
+_raw_noeffect.raw = True
+_raw_noeffect.__name__ = 'attribute / text of an element: not part of the counting claim (arguments not evaluated)'
+
+TEXT_STMTS = {t: 'message / type / text of the element: strings, not part of the counting claim' for t in (
+    'excType, excInstance, tb = testCase.error', 'excType, excInstance, tb = testCase.failure',
+    'errorMessage = str(excInstance)', "stackTrace = ''.join(traceback.format_tb(tb))", 'del tb',
+    "text = errorMessage + '\\n\\n' + stackTrace", "text = f'{errorMessage}\\n\\n{stackTrace}'",
+    'errorNode.text = text', 'failureNode.text = text', "errorMessage = 'Could not extract error str for unicode error'")}
+
+CASE_LOOP = {
+    'property': ['C17'],
+    'fragment': {'find': 'for testCase in suite.testCases:', 'count': 1},
+    'params': {'suite': 'Rec[formatter.TestSuiteInfo]', 'testSuiteNode': 'XNode'},
+    'self_fields': {},
+    'ghost': {'ncase': 'int', 'nerr': 'int', 'nfail': 'int'},
+    'requires': [], 'modifies': ['G.ncase', 'G.nerr', 'G.nfail'],
+    'ensures': [
+        # attributes == element counts: _record keeps suite.tests / errors / failures equal to the numbers on the right
+        "G.ncase == old(G.ncase) + len(suite.testCases)",                       # one testcase element per recorded case
+        "G.nerr == old(G.nerr) + count_errors(suite.testCases)",                # an error child exactly for the cases with an error
+        "G.nfail == old(G.nfail) + count_failures(suite.testCases)",            # a failure child exactly for the cases with a failure
+    ],
+    'raises': {},
+    'callsites': {'testSuiteNode.append': ["tag_of(_arg0) == 'testcase'"],
+                  'testCaseNode.append': ["tag_of(_arg0) == 'error' or tag_of(_arg0) == 'failure'"]},
+    'loops': {'#loop3': ["G.ncase == old(G.ncase) + _i", "G.nerr == old(G.nerr) + count_errors_upto(suite.testCases, _i)",
+                         "G.nfail == old(G.nfail) + count_failures_upto(suite.testCases, _i)"]},
+    'skip_stmts': TEXT_STMTS,
+    'rules': {'ElementTree.Element': element_rule, 'testSuiteNode.append': append_suite, 'testCaseNode.append': append_case,
+              '*Node.set': _raw_noeffect},
+}
+
+
 SUITE_TESTS = {        # the `tests` attribute written to the report: one per recorded test case (= testcase element)
     'property': ['C17'],
     'params': {},
@@ -249,7 +312,22 @@ def register(E):
             return VObj('Str', z3.Const('undefined_str', Str))       # only on paths where the clause is vacuous
         return VObj('Str', cat(cat(c.z, dot), n.z))
     E.specfuncs['dotted'] = _dotted
-    E.records['formatter.TestSuiteInfo'] = {}
+    E.records['formatter.TestSuiteInfo'] = {'testCases': 'List[CaseInfo]', 'errors': 'int', 'failures': 'int'}
+    ExcInfo = usort('ExcInfo')
+    E.truthy_sorts['ExcInfo'] = 'always'          # an exc_info triple is a non-empty tuple
+    ei = z3.Function('case_exc_info', Case, ExcInfo)
+    E.objattrs[('CaseInfo', 'error')] = lambda eng, st, c: VOpt(z3.Not(has_err(c.z)), VObj('ExcInfo', ei(c.z)))
+    E.objattrs[('CaseInfo', 'failure')] = lambda eng, st, c: VOpt(z3.Not(has_fail(c.z)), VObj('ExcInfo', ei(c.z)))
+    E.objattrs[('CaseInfo', 'testClassName')] = 'Str'
+    E.objattrs[('CaseInfo', 'testName')] = 'Str'
+    E.objattrs[('CaseInfo', 'time')] = 'real'
+    E.specfuncs.update({
+        'tag_of': lambda eng, st, n: VObj('Str', xtag(n.z)),
+        'count_errors_upto': lambda eng, st, L, i: VInt(cnt_err(st.heap[L.rid].arr, i.z)),
+        'count_failures_upto': lambda eng, st, L, i: VInt(cnt_fail(st.heap[L.rid].arr, i.z))})
+    E.assumptions.append("writeXMLReports (test-case loop): a recorded error / failure is an exc_info triple, hence truthy; the "
+                         "strings put into attributes and text are outside this contract (sanitised afterwards, see the xml_safe lemma)")
+    E.add_contract('formatter.XMLOutputFormattingWrapper.writeXMLReports', CASE_LOOP)
     E.add_contract('formatter.TestSuiteInfo.tests', SUITE_TESTS)
     E.add_contract('formatter.parse_unittest', PARSE_UNITTEST)
     E.add_contract('formatter.XMLOutputFormattingWrapper._record', RECORD)
